@@ -2,7 +2,7 @@
 From Coq Require Import ZArith Bool List.
 Import ListNotations.
 Require Import TC.Base.Map TC.Store.Stores TC.Store.Refine TC.Limiter.KeyStep TC.Limiter.KeyLemmas
-  TC.Limiter.Limiter TC.Limiter.Abstract TC.Limiter.Project TC.Limiter.Top.
+  TC.Limiter.Limiter TC.Limiter.Abstract TC.Limiter.Project TC.Limiter.Top TC.Limiter.Regress TC.Store.AbsMap.
 Open Scope Z_scope.
 
 (* For every key type (byte strings with exact equality are one instance), every rate function,
@@ -39,3 +39,18 @@ Theorem C05_frame :
   keqb k' (r_key rq) = false -> fst (al_step K keqb rate am rq) k' = am k'.
 Proof. exact al_step_frame. Qed.
 Print Assumptions C05_frame.
+
+(* timestamps NOT globally ordered (each key on its own clock): isolation still holds for every
+   execution without a stale-forget event; with such events it genuinely fails (known finding
+   shared with C17: C17_refuted_by_stale_forget, findings/F7-stale-forget.json) *)
+Theorem C05_projection_no_stale_forget :
+  forall (K : Type) (keqb : K -> K -> bool), (forall a b, reflect (a = b) (keqb a b)) ->
+  forall (rate : Z -> Z -> Z) (st0 : store K) (h : list (bool * req K)) (k : K) (B count period : Z),
+  sdata K st0 = [] ->
+  inD (rate count period) B -> 1 <= count -> 1 <= period ->
+  times_ok K (map snd h) -> key_fixed K keqb k B count period (map snd h) ->
+  no_stale_forget K keqb rate st0 abs_empty h ->
+  project K keqb k (map snd h) (snd (lrun K keqb rate st0 h)) =
+  snd (krun (rate count period) B None (kreqs K keqb k (map snd h))).
+Proof. exact lim_projection_any_order. Qed.
+Print Assumptions C05_projection_no_stale_forget.
